@@ -764,3 +764,59 @@ def replay_text_conversion(index, ob, seed, saved=None):
         if f["name"] != "comparison_sign_followed_by_extra_space":
             return _r(True, input=f["input"], observed=f["observed"], expected=f["expected"], function="TextContent._convert_special_chars")
     return _r(False, cases=res.get("cases"))
+
+
+def replay_colour_references(index, ob, seed, saved=None):
+    """C12 read-back on the real pipeline: every \\cf / \\chcbpat reference of a body cell, looked up in the emitted colour table, is the RGB of
+    the colour the user put on that cell ('' / black: no reference or index 0); Utils._get_color_index agrees with the colour service."""
+    import re
+    import polars as pl
+    from contracts.readback import parse
+    rtf = index.real_module("rtflite")
+    row = index.real_module("rtflite.row")
+    svc = index.real_module("rtflite.services.color_service").color_service
+    rgb = {k: v for k, v in index.real_module("rtflite.dictionary.color_table").name_to_rgb.items()} if hasattr(index.real_module("rtflite.dictionary.color_table"), "name_to_rgb") else None
+    rng = random.Random(seed)
+    names = ["red", "blue", "green", "gold", "navy", "orchid", "black", ""]
+    # 1. the helper against the service, explicit lists
+    for _ in range(60):
+        used = rng.sample(names, rng.randint(1, 5))
+        col = rng.choice(names)
+        want = 0 if col in ("", "black") else svc.get_rtf_color_index(col, used)
+        got = row.Utils._get_color_index(col, used)
+        if got != want:
+            return _r(True, input={"color": col, "used_colors": used}, observed=got, expected=want, function="Utils._get_color_index")
+    # 2. documents: per-cell colours, read back through the emitted colour table
+    for trial in range(25):
+        nr, nc = rng.randint(1, 4), rng.randint(1, 3)
+        df = pl.DataFrame({f"c{j}": [f"r{i}c{j}" for i in range(nr)] for j in range(nc)})
+        tc = [[rng.choice(names) for _ in range(nc)] for _ in range(nr)]
+        bg = [[rng.choice(names[:4] + [""]) for _ in range(nc)] for _ in range(nr)]
+        inp = {"text_color": tc, "text_background_color": bg}
+        try:
+            s = rtf.RTFDocument(df=df, rtf_body=rtf.RTFBody(text_color=tc, text_background_color=bg, as_colheader=False)).rtf_encode()
+        except Exception as e:
+            return _r(True, input=inp, observed=f"{type(e).__name__}: {e}")
+        ct = re.search(r"\{\\colortbl\s*;([^}]*)\}", s)
+        table = [e for e in (ct.group(1).replace("\n", "").split(";") if ct else []) if e.strip() != ""]
+
+        def entry(idx):
+            return table[idx - 1] if 1 <= idx <= len(table) else None
+
+        def rgb_of(name):
+            return svc.get_color_rtf_code(name).rstrip(";") if hasattr(svc, "get_color_rtf_code") else None
+        doc = parse(s)
+        rows = [r for p in doc.pages for r in p.rows]
+        if len(rows) != nr:
+            continue
+        for i, r in enumerate(rows):
+            for j, cell in enumerate(r.cells):
+                for what, want_name, got_idx in (("text colour", tc[i][j], cell.cf), ("background", bg[i][j], cell.cb)):
+                    if want_name in ("", "black"):
+                        if got_idx not in (None, 0):
+                            return _r(True, input=dict(inp, cell=[i, j]), observed=f"{what} index {got_idx}", expected="no reference / index 0")
+                        continue
+                    if got_idx in (None, 0) or entry(got_idx) is None or entry(got_idx).strip() != rgb_of(want_name).strip():
+                        return _r(True, input=dict(inp, cell=[i, j]), observed=f"{what} index {got_idx} -> table entry {entry(got_idx) if got_idx else None!r}",
+                                  expected=f"{want_name} = {rgb_of(want_name)!r}")
+    return _r(False)
